@@ -8,7 +8,7 @@ from .types import (T, INT, REAL, BOOL, STR, BYTES, OPTINT, IDENT, ANYREF, Ref, 
                     ident_of, cls_of, lower, slen, ulen, blen, bat, parse_type, ref)
 
 BUILTINS = {'len', 'isinstance', 'int', 'bool', 'float', 'hash', 'set', 'list', 'dict', 'tuple', 'reversed',
-            'sorted', 'range', 'min', 'max', 'bytes', 'str', 'enumerate', 'cast', 'super', 'id', 'abs',
+            'sorted', 'range', 'min', 'max', 'bytes', 'str', 'enumerate', 'cast', 'super', 'id', 'abs', 'type',
             'frozenset', 'any', 'all', 'zip', 'repr', 'iter', 'next', 'bytearray', 'sum', 'callable',
             'getattr', 'hasattr', 'print', 'deque'}
 SPEC_BUILTINS = {'old', 'forall', 'exists', 'implies', 'iff', 'ite', 'result', 'ident', 'cls_is', 'fresh_obj',
@@ -497,6 +497,14 @@ class ExprMixin:
         return {ast.Lt: x < y, ast.LtE: x <= y, ast.Gt: x > y, ast.GtE: x >= y}[type(op)]
 
     def identical(self, a, b, st):
+        # type(x) is C : exact class test
+        for x, y in ((a, b), (b, a)):
+            if isinstance(x, FuncV) and x.kind == 'typeof' and isinstance(y, ClassV):
+                if not isinstance(x.recv, RefV):
+                    return z3.BoolVal(False)
+                if y.name not in self.ctx.shapes._ids:
+                    raise VCError('type() compared with class %s that has no shape' % y.name)
+                return self.ctx.shapes.exact_class_term(x.recv.term, y.name)
         if isinstance(a, NoneV) and isinstance(b, NoneV):
             return z3.BoolVal(True)
         if isinstance(a, PyConst) and isinstance(b, PyConst):
